@@ -10,7 +10,7 @@ from specmc import gen, trees
 
 ID = "C09"
 LEVEL = "model_checking"
-RULE = ("(1) exhaustive sweep: every one of the 1,114,112 code points c in the names c, c+'a', 'a'+c, 'a'+c+'b' through the real "
+RULE = ("(1b) seam injectivity under single-character substitution: every pattern of length 1..5 over {lower, upper, digit, delimiter}, each non-delimiter position replaced by 4 characters of its class, through snake_case / pascal_case / kebab_case / PythonIdentifier / ClassName; (1) exhaustive sweep: every one of the 1,114,112 code points c in the names c, c+'a', 'a'+c, 'a'+c+'b' through the real "
         "PythonIdentifier / ClassName / snake_case seam, both field_prefix values; (2) end to end: representatives of every "
         "behavioural class found, in every scope; (3) all unordered pairs of a collision alphabet per scope (model attributes, "
         "operation parameters, schema classes+modules, enum members, operations of one tag, tags) x field_prefix; (4) a component and an inline class of another component deriving the same class name (3 holders x 3 properties x 4 spellings x kinds x order); scopes also include attributes inherited from several allOf parents / one parent, names include renamed reserved names (client, client_query, client_header); non-trivial = "
@@ -30,6 +30,10 @@ def cases(tier):
     # (1) seam sweep
     for lo in range(0, 0x110000, CHUNK):
         yield {"labels": [f"sweep={lo:06X}-{min(lo + CHUNK, 0x110000) - 1:06X}"], "payload": {"mode": "sweep", "lo": lo, "hi": min(lo + CHUNK, 0x110000)}}
+    # (1b) single-character substitutions at the seam: every pattern of length 1..5 over {lower, upper, digit, delimiter}
+    pats = ["".join(p) for n in range(1, 6) for p in itertools.product("lUd_", repeat=n)]
+    for i in range(0, len(pats), 256):
+        yield {"labels": [f"substitution-patterns={i}-{min(i + 256, len(pats)) - 1}"], "payload": {"mode": "substitution", "patterns": pats[i:i + 256]}}
     # (2) representatives end to end
     for name in END2END:
         for scope in SCOPES:
@@ -108,6 +112,44 @@ def _sweep(lo, hi):
             for (fn, why, cat, pos), (cnt, ex) in sorted(bad.items())]
     return {"violations": viol, "outcome": "sweep:" + ("clean" if not viol else "bad"), "nontrivial": True, "steps": n,
             "stats": {"names_swept": n, **{f"class_{k}": v for k, v in classes.items()}}}
+
+
+SUB_CLASSES = {"l": "abxy", "U": "ABXY", "d": "1290"}
+
+
+def _substitution(patterns):
+    """Seam-level injectivity under single-character substitution: two names that differ in exactly ONE character, replaced by another
+    character of the same class (lower-case letter, upper-case letter, digit) at the same position, are never mapped to one identifier
+    by any naming function.  Patterns are all strings of length 1..5 over {l, U, d, _} (delimiter positions are not substituted)."""
+    try:
+        from openapi_python_client import utils
+    except ImportError:
+        return {"outcome": "seam-renamed", "nontrivial": False}
+    fns = {"snake_case": utils.snake_case, "pascal_case": utils.pascal_case, "kebab_case": utils.kebab_case,
+           "PythonIdentifier": lambda v: str(utils.PythonIdentifier(v, "field_")), "ClassName": lambda v: str(utils.ClassName(v, "field_"))}
+    bad, n = {}, 0
+    for pat in patterns:
+        base = "".join("_" if t == "_" else SUB_CLASSES[t][0] for t in pat)
+        for i, t in enumerate(pat):
+            if t == "_":
+                continue
+            variants = [base[:i] + ch + base[i + 1:] for ch in SUB_CLASSES[t]]
+            for fname, fn in fns.items():
+                seen = {}
+                for v in variants:
+                    n += 1
+                    try:
+                        r = fn(v)
+                    except Exception as exc:  # noqa: BLE001
+                        r = f"<raises {type(exc).__name__}>"
+                    if r in seen and seen[r] != v:
+                        k = (fname, t, "before-" + (pat[i + 1] if i + 1 < len(pat) else "end"))
+                        slot = bad.setdefault(k, [0, f"{seen[r]!r} and {v!r} -> {r!r}"])
+                        slot[0] += 1
+                    seen.setdefault(r, v)
+    viol = [{"oracle": "seam-substitution", "site": fn, "key": f"{cls}/{ctx}", "detail": f"{cnt} pairs of names differing in one {cls!r} character map to one identifier, first: {ex}"}
+            for (fn, cls, ctx), (cnt, ex) in sorted(bad.items())]
+    return {"violations": viol, "outcome": "substitution:" + ("clean" if not viol else "bad"), "nontrivial": True, "steps": n, "stats": {"names_substituted": n}}
 
 
 # ------------------------------------------------------------------------------------------------- end to end
@@ -445,6 +487,8 @@ def run_case(p):
         return _sweep(p["lo"], p["hi"])
     if p["mode"] == "inline-clash":
         return _inline_clash(p)
+    if p["mode"] == "substitution":
+        return _substitution(p["patterns"])
     if p["mode"] == "nested-name":
         return _nested_name(p)
     return _e2e(p)
